@@ -53,6 +53,9 @@ UpMsgs ==
     \cup {[n |-> NB, ty |-> MSG_BM_ADDRESS, d |-> d] : d \in {<<0, 35, 1>>, <<0, 35, 129>>, <<1, 35, 1, 2, 3>>, <<1, 2, 131>>, <<0, 0, 0>>, <<1>>,
                                                            <<9, 35, 65>>, <<0, 99, 1>>, <<5, 35, 1>>}}
     \cup {[n |-> NA, ty |-> MSG_BM_ADDRESS, d |-> <<0, 35, 1>>]}
+    \* a range that ends with the last detector (SecAck board: mirrored like any other); error reports without a parameter byte
+    \cup {[n |-> NA, ty |-> MSG_BM_MULTIPLE, d |-> <<248, 8, 129>>]}
+    \cup {[n |-> n, ty |-> MSG_SYS_ERROR, d |-> <<c>>] : n \in {NA, NB}, c \in {33, 48}}
     \cup {[n |-> NB, ty |-> MSG_BM_CURRENT, d |-> <<0, v>>] : v \in {0, 15, 16, 63, 64, 127, 128, 191, 192, 250, 251, 254, 255}}
     \cup {[n |-> NB, ty |-> MSG_BM_CONFIDENCE, d |-> <<1, 0, 7>>]}
     \cup {[n |-> NB, ty |-> MSG_BM_SPEED, d |-> <<35, 1, 44, 1>>], [n |-> NB, ty |-> MSG_BM_SPEED, d |-> <<36, 1, 44, 1>>]}
